@@ -37,7 +37,7 @@
    Executable definitions only. *)
 From Coq Require Import ZArith.
 From Trzsz Require Export Base.Bytes.
-From Trzsz Require Import Gen.Consts Model.Path Model.Fs Model.Names Model.Escape Model.Base64 Model.Wire.
+From Trzsz Require Import Gen.Consts Model.Path Model.Fs Model.Names Model.Escape Model.Base64 Model.Wire Model.RelayNeg.
 
 (* ---- configuration (transferConfig as both ends hold it after the CFG line) ---- *)
 Record tr_cfg := mkTrCfg {
@@ -520,6 +520,7 @@ Definition tr_fuel (c : tr_cfg) (ess : list (tr_entry * tr_sched)) : nat :=
    alone: None = the receiver refuses (or an unmodelled exchange would start) *)
 Definition tr_spec_entry (c : tr_cfg) (dest : path) (e : tr_entry) (st : state) : option (name * state) :=
   let p := tr_payload c e in
+  if te_isdir e && negb (tr_json c) then None else      (* a directory cannot be named in plain mode *)
   match tr_create c dest p [] st with
   | (NErr, _) => None
   | (NOk ln, st1) =>
@@ -576,7 +577,7 @@ Definition tr_delta (pipe : bool) (q : tr_q) (t : tr_tag) : option tr_q :=
   | Q5, TgSucc => Some Q6
   | Q6, TgComp => if pipe then Some Q7 else None
   | Q6, TgData => if pipe then Some Q7 else Some Q11
-  | Q6, TgFinish => if pipe then Some Q8 else None
+  | Q6, TgFinish => if pipe then Some Q8 else Some Q11   (* legacy: a chunk whose coding is empty is still a DATA message *)
   | Q6, TgMd5 => if pipe then None else Some Q10
   | Q7, TgData => Some Q7
   | Q7, TgFinish => Some Q8
@@ -602,3 +603,92 @@ Definition tr_shape_ok (pipe : bool) (log : list (bool * tr_msg)) : bool :=
   end.
 
 End Transfer.
+
+(* ============================ WHAT THE THEOREMS SAY ============================ *)
+Definition tr_p_id (p : tr_npayload) : option Z := match p with TrJson s _ => Some (s_id s) | TrPlain _ => None end.
+Definition tr_p_head (p : tr_npayload) : name := match p with TrJson s _ => hd [] (s_rel s) | TrPlain nm => nm end.
+
+(* where an entry lands below its top-level name, what is to be there, and its top-level name as sent *)
+Definition tr_tail (c : tr_cfg) (e : tr_entry) : list name := tr_p_tail (tr_payload c e).
+Definition tr_node (e : tr_entry) : node := if te_isdir e then Dir else File (te_data e).
+Definition tr_key (c : tr_cfg) (e : tr_entry) : name := tr_p_head (tr_payload c e).
+
+(* the source list as checkPathsReadable / checkDuplicateNames leave it:
+   overwrite off, JSON names: no two entries with the same path id and the same path below the
+   top-level name, and the first entry of every path id is the top-level one;
+   overwrite on: no two entries with the same relative path (plain mode: the same name) *)
+Definition tr_wf (c : tr_cfg) (es : list tr_entry) : Prop :=
+  (tc_overwrite c = false -> tr_json c = true ->
+     NoDup (map (fun e => (te_id e, tl (te_rel e))) es) /\
+     (forall pre e post, es = pre ++ e :: post -> tl (te_rel e) <> [] -> exists e', In e' pre /\ te_id e' = te_id e)) /\
+  (tc_overwrite c = true -> NoDup (map (fun e => tr_key c e :: tr_tail c e) es)).
+
+(* the destination [ff] holds the source entries [es] under the names [per] (one per entry; [all] is
+   their deduplicated list): same relative structure, same bytes; with overwrite on the names are the
+   ones sent, with overwrite off they did not exist in [f0] and do now; nothing that existed is gone *)
+Definition tr_tree_at (c : tr_cfg) (d : path) (f0 ff : fs) (es : list tr_entry) (per all : list name) : Prop :=
+  length per = length es /\
+  (forall ln, In ln all <-> In ln per) /\ NoDup all /\
+  (forall e ln, In (e, ln) (combine es per) -> lookup ff (d ++ ln :: tr_tail c e) = Some (tr_node e)) /\
+  (tc_overwrite c = true -> forall e ln, In (e, ln) (combine es per) -> ln = tr_key c e) /\
+  (tc_overwrite c = false -> forall e ln, In (e, ln) (combine es per) ->
+     lookup f0 (d ++ [ln]) = None /\ lookup ff (d ++ [ln]) <> None) /\
+  (forall q, lookup f0 q <> None -> lookup ff q <> None).
+
+(* both sides report success with the same names, the queues are empty, the tree is there, the
+   client's EXIT message carries exactly these names, and the transcript has the shape of the grammar *)
+Definition tr_outcome_ok {digest : Type} (c : tr_cfg) (d : path) (f0 : fs) (ess : list (tr_entry * tr_sched))
+    (cf : tr_conf digest) : Prop :=
+  tr_sender_ok digest cf = true /\ tr_receiver_ok digest cf = true /\ tr_quiet digest cf = true /\
+  exists per all, ss_names (cf_s digest cf) = all /\ rs_names (cf_r digest cf) = all /\
+    tr_tree_at c d f0 (st_fs (rs_st (cf_r digest cf))) (map fst ess) per all /\
+    (exists L, cf_log digest cf = L ++ [(tc_upload c, TrExit digest all)]) /\   (* the names the client reports *)
+    tr_shape_ok digest (tr_pipeline c) (cf_log digest cf) = true.
+
+(* ---- a sufficient condition on the inputs for the receiver to accept every entry ---- *)
+Definition tr_len_ok (n : name) : Prop := (name_max <? name_len n) = false.           (* at most NAME_MAX bytes *)
+Definition tr_comp_ok (n : name) : Prop := has_nul n = false /\ tr_len_ok n.
+Definition tr_name_fine (n : name) : Prop := valid_name n = true /\ tr_comp_ok n.     (* checkFileName accepts it *)
+(* the names of an entry are clean; JSON mode: the path is not empty; a directory only in JSON mode *)
+Definition tr_entry_clean (c : tr_cfg) (e : tr_entry) : Prop :=
+  Forall tr_name_fine (tr_key c e :: tr_tail c e) /\ (tr_json c = true -> te_rel e <> []) /\
+  (te_isdir e = true -> tr_json c = true).
+Definition tr_leaf_of (c : tr_cfg) (d : path) (e : tr_entry) : path := d ++ tr_key c e :: tr_tail c e.
+(* clean names; no two entries at one place; every entry below the top level comes after its
+   parent directory, which has the same path id; entries share a path id exactly when they share
+   the top-level name; and nothing is in the way at the destination *)
+Definition tr_ready (c : tr_cfg) (d : path) (f0 : fs) (es : list tr_entry) : Prop :=
+  Forall (tr_entry_clean c) es /\
+  NoDup (map (fun e => tr_key c e :: tr_tail c e) es) /\
+  (forall pre e post, es = pre ++ e :: post -> tr_tail c e <> [] ->
+     exists e', In e' pre /\ te_isdir e' = true /\ te_id e' = te_id e /\
+       tr_key c e' :: tr_tail c e' = removelast (tr_key c e :: tr_tail c e)) /\
+  (forall e e', In e es -> In e' es -> (te_id e = te_id e' <-> tr_key c e = tr_key c e')) /\
+  (forall e, In e es -> lookup f0 (tr_leaf_of c d e) = None).
+
+(* the escape table is absent or well-formed *)
+Definition tr_table_ok (c : tr_cfg) : Prop := tc_table c = [] \/ wf (tc_table c) = true.
+
+(* [tr_wf] as a computation *)
+Fixpoint tr_nodupb {A} (eqb : A -> A -> bool) (l : list A) : bool :=
+  match l with
+  | [] => true
+  | x :: r => negb (existsb (eqb x) r) && tr_nodupb eqb r
+  end.
+Fixpoint tr_first_top (seen : list Z) (es : list tr_entry) : bool :=
+  match es with
+  | [] => true
+  | e :: r =>
+    (match tl (te_rel e) with [] => true | _ => existsb (Z.eqb (te_id e)) seen end) && tr_first_top (te_id e :: seen) r
+  end.
+Definition tr_wfb (c : tr_cfg) (es : list tr_entry) : bool :=
+  if tc_overwrite c then tr_nodupb path_eqb (map (fun e => tr_key c e :: tr_tail c e) es)
+  else if tr_json c then
+    tr_nodupb (fun a b => Z.eqb (fst a) (fst b) && path_eqb (snd a) (snd b)) (map (fun e => (te_id e, tl (te_rel e))) es)
+    && tr_first_top [] es
+  else true.
+
+(* ---- the configuration both ends hold after the negotiation of Model/RelayNeg.v (C14) ---- *)
+Definition tr_cfg_of (nc : n_config) (upload : bool) : tr_cfg :=
+  mkTrCfg (Z.to_N (nc_protocol nc)) (nc_binary nc) (nc_directory nc) (nc_overwrite nc) (Z.to_N (nc_compress nc))
+          (match nc_escape nc with Some t => t | None => [] end) upload.
